@@ -66,13 +66,18 @@ def tie_breaks(r):
     return out
 
 
+def hb(x):
+    """payload, table keys and literal prefix / suffix come from the harness as hex strings: bytes, not characters"""
+    return bytes.fromhex(x)
+
+
 def plain_of(o, f):
     """plain scan result for a find record, from the matcher table"""
     rx, s = o["regexes"][f["re"]], o["sources"][f["src"]]
-    buf = s["c"] if f["dir"] == 0 else s["s"]
+    buf = hb(s["c"] if f["dir"] == 0 else s["s"])
     rest = buf[f["off"][f["dir"]]:]
     for e in rx["t"]:
-        if e["b"] == rest:
+        if hb(e["b"]) == rest:
             return None if e["e"] < 0 else (e["s"], e["e"], rest)
     return None
 
@@ -89,10 +94,10 @@ def unsound_fact(o, f):
         return "minimum length %d but %r matches %r" % (rx["min"], rx["expr"], m)
     if len(m) > rx["max"]:
         return "maximum length %d but %r matches %r" % (rx["max"], rx["expr"], m)
-    if not m.startswith(rx["p"]):
-        return "prefix %r but %r matches %r" % (rx["p"], rx["expr"], m)
-    if not m.endswith(rx["x"]):
-        return "suffix %r but %r matches %r" % (rx["x"], rx["expr"], m)
+    if not m.startswith(hb(rx["p"])):
+        return "prefix %r but %r matches %r" % (hb(rx["p"]), rx["expr"], m)
+    if not m.endswith(hb(rx["x"])):
+        return "suffix %r but %r matches %r" % (hb(rx["x"]), rx["expr"], m)
     return None
 
 
@@ -114,12 +119,15 @@ def single_source_variants(case, o):
     vs = []
     for s in o.get("sources", []):
         chunks, pc, ps = [], 0, 0
-        for a, b in s["bl"][1:]:
-            if a > pc:
-                chunks.append({"d": 0, "b": s["c"][pc:a]})
-            if b > ps:
-                chunks.append({"d": 1, "b": s["s"][ps:b]})
-            pc, ps = a, b
+        try:
+            for a, b in s["bl"][1:]:
+                if a > pc:
+                    chunks.append({"d": 0, "b": hb(s["c"])[pc:a].decode("utf-8")})
+                if b > ps:
+                    chunks.append({"d": 1, "b": hb(s["s"])[ps:b].decode("utf-8")})
+                pc, ps = a, b
+        except UnicodeDecodeError:
+            continue    # a block boundary inside a character: this source cannot be written as a case of its own
         # the writer merges bursts of one direction
         merged = []
         for ch in chunks:
